@@ -49,10 +49,7 @@ def run(ctx):
         info = zoo.make(rng, name, node=node, with_cons=rng.random() < 0.6, with_ignore=rng.random() < 0.5,
                         with_starts=(rng.random() < 0.4) if name in zoo.HAS_STARTS else False, exact=rng.random() < 0.5)
         kw = info["kwargs"]
-        cov = 1.0
-        if info["cons"] and "coverage_length" not in info and rng.random() < 0.4:
-            cov = rng.choice([0.5, 0.75])
-            kw["subset_constraints_coverage" if cyclic else "subpath_constraints_coverage"] = cov
+        cov = info.get("coverage", 1.0)          # zoo sets relaxed coverage itself
         rep = {"instance": zoo.describe(info)}
         try:
             m = zoo.construct(info); m.solve()
@@ -183,3 +180,39 @@ def run(ctx):
             kmin = oracles.min_path_cover_bf(G, cons=cons, coverage=cov)
             if kmin is not None and kmin != len(routes):
                 ctx.report(f"MinPathCover returned {len(routes)} paths; minimum satisfying the constraints is {kmin}", rep)
+
+    # (6) flow decomposition with the greedy shortcut: constraints from ARBITRARY routes with relaxed coverage; the
+    #     greedy acceptance test and the MILP must agree on what "covered to the fraction" means
+    for i in range(ctx.budget(500, 8000)):
+        rng = ctx.rng("advfd", i)
+        G, paths, ws, is_int = gen2.rand_flow_dag(rng, nmax=rng.choice([5, 6, 7]), npaths=(3, 4))
+        allp = gen.all_st_paths(G)
+        cons = []
+        for _ in range(rng.randint(1, 2)):
+            p_ = rng.choice(allp); es = list(zip(p_, p_[1:]))
+            if len(es) >= 2:
+                n_ = min(len(es), rng.choice([3, 3, 3, 2]))
+                a_ = rng.randrange(0, len(es) - n_ + 1); cons.append(es[a_:a_ + n_])
+        if not cons:
+            continue
+        cov = rng.choice([0.5, 0.5, 0.75, 1.0])
+        rep = {"edges": [[u, v, d] for u, v, d in G.edges(data=True)], "constraints": cons, "coverage": cov}
+        res = {}
+        for greedy in (True, False):
+            try:
+                m = fp.MinFlowDecomp(G, flow_attr="flow", weight_type=int if is_int else float, subpath_constraints=cons,
+                                     subpath_constraints_coverage=cov, optimization_options={"optimize_with_greedy": greedy},
+                                     solver_options={"threads": zoo.THREADS})
+                m.solve()
+            except Exception as e:
+                ctx.report(f"MinFlowDecomp raised {e!r}", rep); res = None; break
+            if not m.is_solved():
+                ctx.report("MinFlowDecomp not solved (constraints are realisable by zero-weight paths)", rep); res = None; break
+            sol = m.get_solution()
+            why = props.constraint_covered(cons, sol["paths"], coverage=cov)
+            if why:
+                ctx.report(f"MinFlowDecomp (greedy={greedy}): {why} (coverage {cov})", dict(rep, solution=sol["paths"])); res = None; break
+            res[greedy] = len(sol["paths"])
+        ctx.case(["advfd", rep], nontrivial=True); ctx.count("E2_greedy_vs_milp_constraints", "cases")
+        if res and res[True] != res[False]:
+            ctx.report(f"MinFlowDecomp: {res[True]} paths with the greedy shortcut, {res[False]} without", rep)
